@@ -271,3 +271,14 @@ def run_coro(coro):
     """Run a coroutine object to completion (natively on a fresh event loop)."""
     import asyncio
     return asyncio.run(coro)
+
+
+def set_closure(fn, name, value):
+    """Set a free variable (closure cell) of a function."""
+    i = fn.__code__.co_freevars.index(name)
+    fn.__closure__[i].cell_contents = value
+
+
+def get_closure(fn, name):
+    i = fn.__code__.co_freevars.index(name)
+    return fn.__closure__[i].cell_contents
